@@ -87,7 +87,19 @@ def composite(names):
         out["params"] += [(ren[nm], ia) for nm, ia in s["params"]]
         out["vars"] += [(ren[nm], ia) for nm, ia in s["vars"]]
         out["derived"] += [(ren[nm], fn, [ren.get(a, a) for a in args]) for nm, fn, args in s.get("derived", [])]
-        out["reactions"] += [(ren[nm], fn, [ren.get(a, a) for a in args], {ren[c]: co for c, co in st.items()}) for nm, fn, args, st in s["reactions"]]
+        def rc(co):
+            if isinstance(co, str):
+                return ren.get(co, co)
+            if isinstance(co, tuple) and co and co[0] == "d":
+                return ("d", co[1], [ren.get(a, a) for a in co[2]])
+            return co
+
+        def ria(ia):
+            return None if ia is None else (ia[0], ia[1], [ren.get(a, a) for a in ia[2]])
+
+        out["params"][-len(s["params"]):] = [(ren[nm], ria(ia)) for nm, ia in s["params"]]
+        out["vars"][-len(s["vars"]):] = [(ren[nm], ria(ia)) for nm, ia in s["vars"]]
+        out["reactions"] += [(ren[nm], fn, [ren.get(a, a) for a in args], {ren[c]: rc(co) for c, co in st.items()}) for nm, fn, args, st in s["reactions"]]
     return out
 
 
@@ -221,6 +233,12 @@ def scenarios(tier, seed):
     if tier != "quick":
         for t in it.combinations(COMPOSITE_FEATURES, 3):
             scs.append(RoundTrip(composite(t)))
+        more = COMPOSITE_FEATURES + ["ia_variable", "ia_parameter", "abs", "minmax", "sqrt", "log", "time", "computed_coef_pos", "computed_coef_neg", "named_coef"]
+        have = {s_.key for s_ in scs}
+        for p_ in it.combinations(more, 2):
+            sc_ = RoundTrip(composite(p_))
+            if sc_.key not in have:
+                scs.append(sc_)
     return scs
 
 
